@@ -358,13 +358,15 @@ impl HllSketch {
                     match hll_type {
                         HllType::Hll4 => {
                             let cur_min = state;
-                            Array4::deserialize(cursor, cur_min, lg_config_k, compact, ooo)
+                            Array4::deserialize(cursor, cur_min, lg_config_k, ooo)
                                 .map(Mode::Array4)?
                         }
-                        HllType::Hll6 => Array6::deserialize(cursor, lg_config_k, compact, ooo)
-                            .map(Mode::Array6)?,
-                        HllType::Hll8 => Array8::deserialize(cursor, lg_config_k, compact, ooo)
-                            .map(Mode::Array8)?,
+                        HllType::Hll6 => {
+                            Array6::deserialize(cursor, lg_config_k, ooo).map(Mode::Array6)?
+                        }
+                        HllType::Hll8 => {
+                            Array8::deserialize(cursor, lg_config_k, ooo).map(Mode::Array8)?
+                        }
                     }
                 }
                 mode => return Err(Error::deserial(format!("invalid mode: {mode}"))),
